@@ -4,8 +4,10 @@ import VgiVerif.Model.C09
 C06 model — request validation in front of every method invocation.
 
 Transliterates, over the shapes extracted into `Gen.Validate`:
-  * `_read_request` (vgi_rpc/rpc/_wire.py): the row-count guard, recording of the request schema, `as_py()` per column
-    into a `dict` (later duplicates overwrite), the handler around `as_py()`;
+  * `_read_request` (vgi_rpc/rpc/_wire.py): pointer resolution (a request routed through shared memory / an external
+    location arrives as a zero-row pointer batch and is replaced by the batch it resolves to), the row-count guard,
+    recording of the request schema (from which of the two batches — extracted), `as_py()` per column into a `dict`
+    (later duplicates overwrite), the handler around `as_py()`;
   * `_deserialize_params` / `_deserialize_value`, `_validate_call_signature`, `_validate_params` (same file);
   * the four dispatch sites — `RpcServer.serve_one` + `_serve_unary` / `_serve_stream` (vgi_rpc/rpc/_server.py),
     `_run_unary_sync` (vgi_rpc/http/server/_app_unary.py), `_run_stream_init_sync` (…/_app_stream.py): the steps are run
@@ -90,8 +92,11 @@ deriving Repr, DecidableEq
 structure Request where
   cols : List Col
   rows : Nat
-  /-- `batch.validate(full=True)` accepts the batch (the `ValidatedReader` check) -/
+  /-- `batch.validate(full=True)` accepts the batch read off the wire (the `ValidatedReader` check) -/
   ipcValid : Bool
+  /-- the request arrived as a zero-row *pointer* batch (shared-memory side channel / external location) with this
+  schema; `cols` / `rows` then describe the batch it resolved to.  `none` = an inline request. -/
+  pointer : Option (List Col) := none
 deriving Repr, DecidableEq
 
 abbrev Kwargs := List (Str × Val)
@@ -133,6 +138,13 @@ def readValues (wrap : List HCls) : List Col → Kwargs → Except Rej Kwargs
       if wrap.any e.isA then .error (rpcError, .noPythonValue c.name) else .error (e, .noPythonValue c.name)
     | v => readValues wrap r (kwSet kw c.name v)
 
+/-- the schema `_current_request_param_schema` holds when `_validate_call_signature` runs: the one of the batch the
+kwargs were read from iff it is recorded after pointer resolution (extracted), else the pointer batch's own -/
+def recordedSchema (rq : Request) : List Col :=
+  match rq.pointer with
+  | none => rq.cols
+  | some p => if readRecordsResolved then rq.cols else p
+
 /-- `vwrap` = classes of the `except` around the validating batch read, `wrap` = of the one around `as_py()` -/
 def readRequestWith (vwrap wrap : List HCls) (rq : Request) : Except Rej (Kwargs × Option (List Col)) :=
   if !rq.ipcValid then
@@ -141,7 +153,7 @@ def readRequestWith (vwrap wrap : List HCls) (rq : Request) : Except Rej (Kwargs
   else
     match readValues wrap rq.cols [] with
     | .error r => .error r
-    | .ok kw => .ok (kw, if readRecordsSchema then some rq.cols else none)
+    | .ok kw => .ok (kw, if readRecordsSchema then some (recordedSchema rq) else none)
 
 def readRequest (rq : Request) : Except Rej (Kwargs × Option (List Col)) :=
   readRequestWith readValidationWrap readWrap rq
